@@ -247,6 +247,8 @@ def check(prop: str, tier: str, seed: int, nshards: int = 16, scale: float = 1.0
             k, d["evaluations"], d["nontrivial"], d["wall_s_max"], d.get("slowest_s", 0.0),
             ("  timeouts=%d" % d["timeouts"]) if d.get("timeouts") else ""))
     if by_sig:
+        for e in harness_errors[:3]:
+            print("HARNESS-NOTE (a shard failed besides the violations above) %s" % e[:3000])
         return 1
     if harness_errors or ok_shards * 2 < nshards:
         for e in harness_errors[:5]:
